@@ -302,3 +302,20 @@ Example C02_sml_example :
           mkElem 1 0 None false; mkElem 0 0 (Some 1%nat) true])
   = [None; None; Some (EAASd 114); Some (EAASd 109); Some (EAASd 108); Some (EAASd 120)].
 Proof. vm_compute. reflexivity. Qed.
+
+(* add / append / insert (SAdd), extend / += (SExtend: rolled back on a refusal) and the value
+   setter (SSetValue: previous content restored on a refusal): accepted => well-formed;
+   rejected => the list is unchanged and the error is one of AASd-107/108/109/114/120 *)
+Theorem C02_sml_step : forall c l p l' r, wf_list c l -> sml_step c l p = (l', r) ->
+  match r with
+  | None => wf_list c l'
+  | Some x => l' = l /\ sml_errno x
+  end.
+Proof. exact sml_step_spec. Qed.
+Theorem C02_sml_ops_history : forall c ops l, wf_list c l -> wf_list c (fst (sml_run c l ops)).
+Proof. exact sml_run_wf. Qed.
+Example C02_sml_ops_example :
+  let a := mkElem 0 0 (Some 1%nat) false in let b := mkElem 0 0 (Some 2%nat) false in let n := mkElem 0 0 None false in
+  sml_run (mkCfg 0 [] true (Some 0%nat) None) [] [SExtend [n; a]; SExtend [n; b]; SSetValue [b; a]; SSetValue [b; n]]
+  = ([b; n], [None; Some (EAASd 114); Some (EAASd 114); None]).
+Proof. vm_compute. reflexivity. Qed.
